@@ -361,6 +361,32 @@ Theorem C01_cached_first_pass_implements_the_grammar_without_its_invalid_alterna
 Proof. exact cached_first_pass_agrees_with_source. Qed.
 Print Assumptions C01_cached_first_pass_implements_the_grammar_without_its_invalid_alternatives.
 
+(* The SECOND pass (error mode on; what `parse(..., call_invalid_rules=True)` and the retry after a failed first pass run): a
+   guard is then true, and the module behaves as the module with its guards removed (C12_flag_on_equals_parser_without_
+   guards, Proofs/ExecUnguard.v; modules without *_without_invalid methods, which switch the flag off while they run).
+   Composed with the theorem for explicit actions: from a state whose flag is on, the parser implements the reference
+   semantics of the FULL source grammar -- its invalid_ alternatives being ordinary alternatives. *)
+From Pegen Require Import Proofs.ExecUnguard.
+Theorem C01_second_pass_implements_the_full_grammar :
+  forall K toks M aeval exact_types token_dict fm rs,
+  reads_back_with_actions rs (unguard_module M) = true -> no_wi_methods M = true ->
+  (forall xs e vs, nodup_s xs = true -> Forall2 (fun x v => env_get e x = Some v) xs vs ->
+     aeval (default_text xs) e = Some (match vs with [v] => v | _ => VList vs end)) ->
+  (forall e v vs, env_get e "elem" = Some v -> env_get e "seq" = Some (VList vs) -> aeval "[elem] + seq" e = Some (VList (v :: vs))) ->
+  (forall a, plain_alt (unguard_module M) a -> a_explicit a = true -> forall e1 e0,
+     (forall x, In x (conj_vars (a_conjs a)) -> env_get e1 x <> None) -> aeval (a_action a) (e1 ++ e0)%list = aeval (a_action a) e1) ->
+  (forall a, plain_alt (unguard_module M) a -> a_explicit a = true -> forall e v, aeval (a_action a) e = Some v -> truthy v = true) ->
+  (forall s t, In t toks -> is_kind2 s = false -> expect_test K exact_types token_dict s t = String.eqb (tstr t) s) ->
+  (forall s t, In t toks -> is_kind2 s = true -> expect_test K exact_types token_dict s t = kind2_test K M s t) ->
+  forall fuel n st, find_rule rs n <> None -> invalid st = true ->
+  (forall v st', run K toks false false M aeval exact_types token_dict fuel n st = (Ok v, st') ->
+     exists res, peg_item K rs toks (i_keywords M) (i_soft_keywords M) (src_aeval aeval) src_names (fun _ => fm) (NameLeaf n) (pos st) res /\
+                 ((truthy v = true /\ res = PSucc v (pos st')) \/ (v = VNone /\ res = PFail /\ pos st' = pos st))) /\
+  (forall ea t st', run K toks false false M aeval exact_types token_dict fuel n st = (Raise (XSyntaxError ea t), st') ->
+     exists msg q, peg_item K rs toks (i_keywords M) (i_soft_keywords M) (src_aeval aeval) src_names (fun _ => fm) (NameLeaf n) (pos st) (PErr msg q)).
+Proof. exact second_pass_agrees_with_source. Qed.
+Print Assumptions C01_second_pass_implements_the_full_grammar.
+
 (* Non-vacuity of the explicit-action part: a rule with an explicit action over two of its three items (the third, unused,
    is not bound by the generator) and a parenthesised alternative with its own action: the module is in the fragment. *)
 Definition g04 : grammar :=
